@@ -106,8 +106,14 @@ def run(chk, tier, seed):
             r["fails"].append(detail)
     n = 0
     for name in CURVES:
-        n += curve_checks(name, rng, report)
-        n += mesh_checks(name, rng, report, tier)
+        try:
+            n += curve_checks(name, rng, report)
+            n += mesh_checks(name, rng, report, tier)
+            report(name, "shipped-curve-and-mesh-construct-without-error", True, {})
+        except BaseException as e:      # the shipped curves must construct (their own asserts are part of the behaviour)
+            import traceback
+            report(name, "shipped-curve-and-mesh-construct-without-error", False,
+                   dict(error="{}: {}".format(type(e).__name__, e), where=traceback.format_exc()[-300:]))
     for (curve, clause), r in sorted(results.items()):
         nm = "C18/bounded/{}/{}".format(curve, clause)
         if r["fails"]:
